@@ -23,12 +23,13 @@ type Config struct {
 	MemPages    []uint32 // candidate minimum sizes; nil = {0,1,1,1,1,2,3}
 	NoMemory    bool
 	AllowStart  bool
-	RefSigs     bool // reference types may appear in function signatures
-	V128Sigs    bool // v128 may appear in function signatures
-	Names       bool // emit a name section
-	Customs     bool // emit custom sections
-	SpecialHost bool // import env.grow (i32)->i32 and env.callback (i32)->i32
-	WASI        bool // import a few wasi_snapshot_preview1 functions and use them
+	RefSigs     bool   // reference types may appear in function signatures
+	V128Sigs    bool   // v128 may appear in function signatures
+	Names       bool   // emit a name section
+	Customs     bool   // emit custom sections
+	SpecialHost bool   // import env.grow (i32)->i32 and env.callback (i32)->i32
+	HostModule  string // module name of the host imports ("" = "env")
+	WASI        bool   // import a few wasi_snapshot_preview1 functions and use them
 }
 
 // DefaultConfig is a medium-size configuration with every feature.
@@ -171,20 +172,25 @@ func (g *gen) sig(maxP, maxR int, host bool) Sig {
 func (g *gen) module() {
 	m, cfg := g.m, g.cfg
 	// --- imports ---
+	hostMod := cfg.HostModule
+	if hostMod == "" {
+		hostMod = "env"
+	}
+	g.out.HostModule = hostMod
 	nh := 0
 	if cfg.HostImports > 0 {
 		nh = g.rng(0, cfg.HostImports, "nhost")
 	}
 	for i := 0; i < nh; i++ {
 		s := g.sig(4, 2, true)
-		idx := m.ImportFunc("env", fmt.Sprintf("h%d", i), s.P, s.R)
+		idx := m.ImportFunc(hostMod, fmt.Sprintf("h%d", i), s.P, s.R)
 		g.sigs = append(g.sigs, s)
 		g.out.Funcs = append(g.out.Funcs, FuncInfo{Index: idx, Sig: s, Imported: true, HostName: fmt.Sprintf("h%d", i)})
 	}
 	if cfg.SpecialHost && g.chance(50, "special") {
 		for _, n := range []string{"grow", "callback"} {
 			s := Sig{P: []byte{I32}, R: []byte{I32}}
-			idx := m.ImportFunc("env", n, s.P, s.R)
+			idx := m.ImportFunc(hostMod, n, s.P, s.R)
 			g.sigs = append(g.sigs, s)
 			g.out.Funcs = append(g.out.Funcs, FuncInfo{Index: idx, Sig: s, Imported: true, HostName: n})
 		}
